@@ -12,8 +12,46 @@ sys.path.insert(0, os.path.join(os.path.dirname(os.path.dirname(HERE)), "tools")
 import vxlib  # noqa: E402
 from vxlib import Undecided  # noqa: E402
 
-ASSUMPTIONS = []
-FN_PROPS = {}
+ASSUMPTIONS = [
+    "NOT verified: the dispatch loops themselves (`while let Some(action) = rx.recv().await { match action {..} }` / `loop { match receiver.recv().await {..} }`): "
+    "each arm is lifted to a function whose parameters are the actor locals it may use (rustc then enforces the frame: an arm touching another local makes "
+    "the unit UNDECIDED, never silently proved); that the loop runs the arm matching the received message once per message is Rust's `match` + tokio's mpsc FIFO delivery",
+    "tokio channels (E9 stubs, contracts from the tokio 1.x docs): mpsc::Sender::send waits for capacity and fails only when the receiver is closed/dropped; "
+    "blocking_send likewise; try_send fails with Full (bounded queue has no capacity) or Closed; send_timeout fails with Timeout or Closed; a message whose send "
+    "returned Ok was delivered into the actor's queue, one whose send returned Err was not; awaiting a oneshot::Receiver yields the value handed to `send` on the "
+    "paired Sender (sent_value(rx_tx(rx))) or Err(RecvError) only if that Sender was dropped unanswered, which is read as `the actor is gone` (every arm under "
+    "contract here replies before it ends; a panic inside an arm would also drop it); oneshot::Sender::send consumes the sender (one value per sender)",
+    "ghost ChanTrace{sent,gone,overflowed,timed_out} (E4) is the view of ONE task on the actor's channel; messages of other tasks interleave in the queue "
+    "(await-interleaving model, safety only)",
+    "u64 summary counts do not wrap: `requires count < u64::MAX` on the two summary arms (the maps are cleared daily by proxy_agent_status; DESIGN C11 Assumed)",
+    "format!(\"{} {} {} {} {} {} {}\", ..) in ProxySummary::to_key_string is the literal's segments interleaved with the Display text of its arguments "
+    "(E6 through one generated E9 stub whose contract is generated from the literal and argument list in the tree); Display of String is the string, of u16 "
+    "an uninterpreted function dec_u16 of the value, of Cow<str> its text; Path::to_string_lossy / Cow::to_string only named (path_lossy)",
+    "HashMap<String,_> model of vstd (obeys_key_model::<String>() required), vstd's Entry API specification, contracts/common/hash_str.rs get_mut specification "
+    "plus the axiom that a key looked up by its own type (Q = K) is itself (axiom_same_key_updated); &str/String extensionality",
+    "E13 placeholder ComputedAuthorizationItem (stored and handed back, never looked into); its derived Clone is a copy (assume_specification)",
+    "logger::write_warning is a stub; Debug/Display of Option<String> and of tokio's channel error types do not panic (log text unconstrained)",
+    "vstd FromSpecImpl hook for From<ProxySummary>: obeys_from_spec() == false (no algebraic spec claimed; callers get the verified ensures of `from`)",
+]
+# which properties an UNLABELLED obligation (overflow, call precondition, ...) of a function counts for
+FN_PROPS = {
+    "AgentStatusSharedState::start_new": ["C11"],
+    "AgentStatusSharedState::add_one_failed_connection_summary": ["C11"],
+    "AgentStatusSharedState::add_one_connection_summary": ["C11"],
+    "ProxySummary::to_key_string": ["C11"],
+    "<ProxyConnectionSummary as From<ProxySummary>>::from": ["C11"],
+    "KeyKeeperSharedState::start_new": ["C09"],
+    "KeyKeeperSharedState::start_new[vx_arm_set_key]": ["C09", "C10"],
+    "KeyKeeperSharedState::start_new[vx_arm_get_key]": ["C10"],
+    "<Key as Clone>::clone": ["C10"],
+    "KeyKeeperSharedState::set_key": ["C09", "C10"], "KeyKeeperSharedState::get_key": ["C09", "C10"],
+    "KeyKeeperSharedState::update_key": ["C09", "C10"], "KeyKeeperSharedState::clear_key": ["C09", "C10"],
+    "KeyKeeperSharedState::get_current_key_value": ["C10"], "KeyKeeperSharedState::get_current_key_guid": ["C10"],
+    "KeyKeeperSharedState::get_current_key_incarnation": ["C10"],
+}
+for _m in ("set_secure_channel_state", "get_current_secure_channel_state", "set_wireserver_rule_id", "get_wireserver_rule_id", "set_imds_rule_id",
+           "get_imds_rule_id", "set_hostga_rule_id", "get_hostga_rule_id", "get_wireserver_rules", "get_imds_rules", "get_hostga_rules"):
+    FN_PROPS["KeyKeeperSharedState::" + _m] = ["C09"]
 
 KKW = "proxy_agent/src/shared_state/key_keeper_wrapper.rs"
 ASW = "proxy_agent/src/shared_state/agent_status_wrapper.rs"
@@ -55,6 +93,65 @@ for (v, local) in (("WireServer", "wireserver"), ("Imds", "imds"), ("HostGA", "h
 KK_NOT_SLICED = {"GetNotify"}   # not relied upon by C09/C10
 
 
+
+# ---- tokio channel operations inside the wrapper methods: E9 redirections with ASSUMED contracts from the tokio documentation ----
+MPSC = "tokio::sync::mpsc"
+CHAN_T = "Tracked(t): Tracked<&mut ChanTrace<T>>"
+FRAME = "final(t).overflowed == old(t).overflowed, final(t).timed_out == old(t).timed_out,"
+SEND_FAMILY = {
+    # mpsc::Sender::send: "waits until there is capacity"; Err only "if the receive half of the channel is closed"
+    "send": dict(params="s: &%s::Sender<T>, m: T, %s" % (MPSC, CHAN_T), ret="core::result::Result<(), %s::error::SendError<T>>" % MPSC, is_async=True, body="s.send(m).await", contract="""
+    ensures final(t).sent == (if r is Ok { old(t).sent.push(m) } else { old(t).sent }),
+            final(t).gone == (old(t).gone || r is Err),
+            final(t).overflowed == old(t).overflowed, final(t).timed_out == old(t).timed_out,"""),
+    # mpsc::Sender::blocking_send: the synchronous form of send
+    "blocking_send": dict(params="s: &%s::Sender<T>, m: T, %s" % (MPSC, CHAN_T), ret="core::result::Result<(), %s::error::SendError<T>>" % MPSC, is_async=False, body="s.blocking_send(m)", contract="""
+    ensures final(t).sent == (if r is Ok { old(t).sent.push(m) } else { old(t).sent }),
+            final(t).gone == (old(t).gone || r is Err),
+            final(t).overflowed == old(t).overflowed, final(t).timed_out == old(t).timed_out,"""),
+    # mpsc::Sender::try_send: does not wait: Err(Full) when the bounded queue has no capacity, Err(Closed) when the receiver is gone
+    "try_send": dict(params="s: &%s::Sender<T>, m: T, %s" % (MPSC, CHAN_T), ret="core::result::Result<(), %s::error::TrySendError<T>>" % MPSC, is_async=False, body="s.try_send(m)", contract="""
+    ensures final(t).sent == (if r is Ok { old(t).sent.push(m) } else { old(t).sent }),
+            final(t).gone == (old(t).gone || r matches Err(tokio::sync::mpsc::error::TrySendError::Closed(_))),
+            final(t).overflowed == (old(t).overflowed || r matches Err(tokio::sync::mpsc::error::TrySendError::Full(_))),
+            final(t).timed_out == old(t).timed_out,"""),
+    # mpsc::Sender::send_timeout: waits for capacity at most `d`
+    "send_timeout": dict(params="s: &%s::Sender<T>, m: T, d: std::time::Duration, %s" % (MPSC, CHAN_T), ret="core::result::Result<(), %s::error::SendTimeoutError<T>>" % MPSC, is_async=True, body="s.send_timeout(m, d).await", contract="""
+    ensures final(t).sent == (if r is Ok { old(t).sent.push(m) } else { old(t).sent }),
+            final(t).gone == (old(t).gone || r matches Err(tokio::sync::mpsc::error::SendTimeoutError::Closed(_))),
+            final(t).timed_out == (old(t).timed_out || r matches Err(tokio::sync::mpsc::error::SendTimeoutError::Timeout(_))),
+            final(t).overflowed == old(t).overflowed,"""),
+}
+
+
+def chan_e9(sf, path, msg_ty, tag):
+    """E9 redirections for every tokio channel operation of wrapper method `path`: each `self.0.<send family>(msg)` and the await of
+    the oneshot reply receiver. The stubs execute the removed expression; their contracts (above) are assumptions on tokio. A body that
+    uses another member of the send family is therefore ACCEPTED and judged by its contract, not UNDECIDED."""
+    it = sf.item(path, "fn")
+    out = []
+    for c in it["calls"]:
+        if c["kind"] == "method" and c["callee"] in SEND_FAMILY and re.sub(r"\s+", "", sf.s(c["receiver"][0], c["receiver"][1])) == "self.0":
+            fam = SEND_FAMILY[c["callee"]]
+            want = 2 if c["callee"] == "send_timeout" else 1
+            if len(c["args"]) != want:
+                raise Undecided("%s: %s with %d arguments" % (path, c["callee"], len(c["args"])))
+            args = "&self.0, " + ", ".join(sf.s(a[0], a[1]) for a in c["args"]) + ", Tracked(t)"
+            out.append((tuple(c["span"]), None, fam["params"], args, fam["ret"], fam["contract"],
+                        dict(name="vx_e9_mpsc_" + c["callee"], generics="<T>", is_async=fam["is_async"], no_await=True, body=fam["body"])))
+    for a in it["awaits"]:
+        base = sf.s(a["base"][0], a["base"][1]).strip()
+        if re.fullmatch(r"[A-Za-z_][A-Za-z0-9_]*", base):
+            # awaiting a oneshot::Receiver: Err(RecvError) only "if the sender is dropped without sending"
+            out.append((tuple(a["span"]), None, "rx: tokio::sync::oneshot::Receiver<R>, Tracked(t): Tracked<&mut ChanTrace<%s>>" % msg_ty, base + ", Tracked(t)",
+                        "core::result::Result<R, tokio::sync::oneshot::error::RecvError>", """
+    ensures r matches Ok(v) ==> v == sent_value(rx_tx(rx)),
+            final(t).sent == old(t).sent, final(t).gone == (old(t).gone || r is Err),
+            final(t).overflowed == old(t).overflowed, final(t).timed_out == old(t).timed_out,""",
+                        dict(name="vx_e9_oneshot_recv_" + tag, generics="<R>", is_async=True, body="rx.await")))
+    return out
+
+
 def arm_block(sf, arm, what):
     if sf.s(arm["body"][0], arm["body"][0] + 1) != "{" or arm["guard"] is not None:
         raise Undecided("%s: arm is not an unguarded block" % what)
@@ -79,7 +176,11 @@ def build(u):
 
     with u.mod("common"):
         with u.mod("error"):
-            u.take_ext(err, ["Error", "HyperErrorType", "WireServerErrorType", "KeyErrorType", "AclErrorType", "BpfErrorType"], "vx_ext_error", uses="use http::{uri::InvalidUri, StatusCode};")
+            u.take_ext(err, ["Error", "HyperErrorType", "WireServerErrorType", "KeyErrorType", "AclErrorType", "BpfErrorType"], "vx_ext_error", uses="use http::{uri::InvalidUri, StatusCode};", opaque=False)
+            # Error is constructed by the wrapper methods under contract: declared TRANSPARENT; the nested error enums stay opaque
+            u.raw("#[verifier::external_type_specification]\npub struct VxEx_err_Error(crate::vx_ext_error::Error);")
+            for n in ("HyperErrorType", "WireServerErrorType", "KeyErrorType", "AclErrorType", "BpfErrorType"):
+                u.raw("#[verifier::external_type_specification]\n#[verifier::external_body]\npub struct VxEx_err_%s(crate::vx_ext_error::%s);" % (n, n))
         with u.mod("result", uses="use super::error::Error;"):
             u.raw("pub type Result<T> = core::result::Result<T, Error>;")
         with u.mod("logger"):
@@ -87,6 +188,7 @@ def build(u):
     with u.mod("proxy_agent_shared"):
         with u.mod("proxy_agent_aggregate_status"):
             u.take(ags, "ProxyConnectionSummary", "struct")
+            u.take(ags, "ModuleState", "enum")
     with u.mod("key_keeper"):
         with u.mod("key", uses="use std::collections::HashMap;"):
             u.take(key, "Key", "struct")
@@ -166,12 +268,28 @@ def build_summary(u, psum):
 
 def build_status_actor(u, asw):
     uses = """use crate::common::logger;
-use crate::proxy::proxy_summary::ProxySummary;
-use crate::proxy_agent_shared::proxy_agent_aggregate_status::ProxyConnectionSummary;
+use crate::common::result::Result;
+use crate::{common::error::Error, proxy::proxy_summary::ProxySummary};
+use crate::proxy_agent_shared::proxy_agent_aggregate_status::{ModuleState, ProxyConnectionSummary};
 use std::collections::{hash_map, HashMap};
 use tokio::sync::{mpsc, oneshot};
 use vstd::std_specs::hash::*;"""
     with u.mod("agent_status_wrapper", uses=uses):
+        u.take(asw, "AgentStatusModule", "enum")
+        u.take_ext(asw, ["AgentStatusAction", "AgentStatusSharedState"], "vx_ext_status_actor", opaque=False, transparent=True,
+                   uses="use crate::shared_state::agent_status_wrapper::AgentStatusModule;\nuse crate::proxy::proxy_summary::ProxySummary;\nuse crate::proxy_agent_shared::proxy_agent_aggregate_status::{ModuleState, ProxyConnectionSummary};\nuse tokio::sync::{mpsc, oneshot};")
+        # ---- the wrapper methods that hand a summary to the actor: whole bodies under contract (tokio channel operations: E9, assumed)
+        with u.impl_(asw, "AgentStatusSharedState"):
+            for (meth, variant) in (("add_one_failed_connection_summary", "AddOneFailedConnectionSummary"), ("add_one_connection_summary", "AddOneConnectionSummary")):
+                u.take_fn(asw, "AgentStatusSharedState::" + meth, ghost="Tracked(t): Tracked<&mut ChanTrace<AgentStatusAction>>",
+                          pre_body="broadcast use group_fmt_chan_errors;", e9=chan_e9(asw, "AgentStatusSharedState::" + meth, "crate::shared_state::agent_status_wrapper::AgentStatusAction", "status"),
+                          contract="""
+        ensures
+            r is Err ==> final(t).gone,  // @C11.wrapper.%(m)s.never_dropped_while_actor_alive
+            r is Ok ==> final(t).sent.len() == old(t).sent.len() + 1 && final(t).sent.drop_last() == old(t).sent
+                && (final(t).sent.last() matches AgentStatusAction::%(v)s { summary: s, response: _ } && s == summary),  // @C11.wrapper.%(m)s.hands_exactly_this_summary_to_the_actor_once
+            final(t).sent == old(t).sent || (final(t).sent.len() == old(t).sent.len() + 1 && final(t).sent.drop_last() == old(t).sent),  // @C11.wrapper.%(m)s.at_most_one_message
+""" % dict(m=meth, v=variant))
         FN = "AgentStatusSharedState::start_new"
         it = asw.item(FN, "fn")
         ms = [m for m in it["matches"] if asw.s(m["scrutinee"][0], m["scrutinee"][1]).strip() == "action"]
@@ -202,15 +320,15 @@ use vstd::std_specs::hash::*;"""
             if len(sends) == 1:   # proof hint placed before the statement that replies: struct / map extensionality steps
                 hints.append((asw.s(sends[0]["span"][0], sends[0]["span"][1]), None, "before", """proof {
     let k = str_key(summary_key(summary));
-    let m1 = %s@;
+    let m1 = %(l)s@;
     if m0.contains_key(k) {
-        assert(m1[k] == bump(m0[k]));
-        assert(m1 == m0.insert(k, bump(m0[k])));
+        assert(m1[k] == bump(m0[k]));  // @%(p)s.actor.%(v)s.exactly_one_more_under_this_key_all_other_keys_unchanged
+        assert(m1 == m0.insert(k, bump(m0[k])));  // @%(p)s.actor.%(v)s.exactly_one_more_under_this_key_all_other_keys_unchanged
     } else {
-        assert(m1.dom() == m0.dom().insert(k));
-        assert(m1 == m0.insert(k, m1[k]));
+        assert(m1.dom() == m0.dom().insert(k));  // @%(p)s.actor.%(v)s.exactly_one_more_under_this_key_all_other_keys_unchanged
+        assert(m1 == m0.insert(k, m1[k]));  // @%(p)s.actor.%(v)s.exactly_one_more_under_this_key_all_other_keys_unchanged
     }
-}""" % local))
+}""" % dict(l=local, p=prop, v=variant)))
             u.slice_fn(asw, FN, name, lo, hi,
                        "%s: &mut HashMap<String, ProxyConnectionSummary>, summary: ProxySummary, response: oneshot::Sender<()>" % local, hints=hints,
                        pre_body="broadcast use vstd::std_specs::hash::group_hash_axioms, group_str_key, axiom_string_ext, axiom_same_key_updated;\nlet ghost m0 = %s@;\n" % local,
@@ -235,7 +353,8 @@ use std::sync::Arc;
 use tokio::sync::{mpsc, oneshot, Notify};"""
     with u.mod("key_keeper_wrapper", uses=uses):
         u.take_ext(kkw, ["KeyKeeperAction"], "vx_ext_kk_action", uses="use crate::proxy::authorization_rules::ComputedAuthorizationItem;\nuse crate::key_keeper::key::Key;\nuse std::sync::Arc;\nuse tokio::sync::{mpsc, oneshot, Notify};", opaque=False, transparent=True)
-        u.take_ext(kkw, ["KeyKeeperSharedState"], "vx_ext_kk_state", uses="use crate::vx_ext_kk_action::KeyKeeperAction;\nuse tokio::sync::mpsc;")
+        u.take_ext(kkw, ["KeyKeeperSharedState"], "vx_ext_kk_state", uses="use crate::vx_ext_kk_action::KeyKeeperAction;\nuse tokio::sync::mpsc;", opaque=False, transparent=True)
+        build_key_keeper_wrappers(u, kkw)
         FN = "KeyKeeperSharedState::start_new"
         it = kkw.item(FN, "fn")
         ms = [m for m in it["matches"] if re.sub(r"\s+", "", kkw.s(m["scrutinee"][0], m["scrutinee"][1])) == "receiver.recv().await"]
@@ -261,3 +380,59 @@ use tokio::sync::{mpsc, oneshot, Notify};"""
                        what="(actor arm KeyKeeperAction::%s)" % v)
         if seen - KK_NOT_SLICED != set(KK_ARMS):
             raise Undecided("%s: actor arms %s missing" % (FN, sorted(set(KK_ARMS) - seen)))
+
+
+KK_T = "Tracked(t): Tracked<&mut ChanTrace<KeyKeeperAction>>"
+GREW = "final(t).sent.len() == old(t).sent.len() + 1 && final(t).sent.drop_last() == old(t).sent"
+# wrapper methods whose body is: one message to the actor, one awaited reply.  method -> (variant, field carrying the argument | None for getters, property)
+KK_WRAPPERS = [
+    ("set_key", "SetKey", "key", "C10+C09"), ("get_key", "GetKey", None, "C10+C09"),
+    ("set_secure_channel_state", "SetSecureChannelState", "state", "C09"), ("get_current_secure_channel_state", "GetSecureChannelState", None, "C09"),
+    ("set_wireserver_rule_id", "SetWireServerRuleId", "rule_id", "C09"), ("get_wireserver_rule_id", "GetWireServerRuleId", None, "C09"),
+    ("set_imds_rule_id", "SetImdsRuleId", "rule_id", "C09"), ("get_imds_rule_id", "GetImdsRuleId", None, "C09"),
+    ("set_hostga_rule_id", "SetHostGARuleId", "rule_id", "C09"), ("get_hostga_rule_id", "GetHostGARuleId", None, "C09"),
+    ("get_wireserver_rules", "GetWireServerRules", None, "C09"), ("get_imds_rules", "GetImdsRules", None, "C09"), ("get_hostga_rules", "GetHostGARules", None, "C09"),
+]
+
+
+def build_key_keeper_wrappers(u, kkw):
+    P = "KeyKeeperSharedState::"
+    MSG = "crate::shared_state::key_keeper_wrapper::KeyKeeperAction"
+    with u.impl_(kkw, "KeyKeeperSharedState"):
+        for (meth, variant, field, prop) in KK_WRAPPERS:
+            it = kkw.item(P + meth, "fn")
+            if field is not None:
+                if [p["name"] for p in it["params"] if p["name"] not in ("self", None)] != [field]:
+                    raise Undecided("%s: parameter list changed" % meth)
+                ok = "r is Ok ==> %s && (final(t).sent.last() matches KeyKeeperAction::%s { %s: a, response: _ } && a == %s)" % (GREW, variant, field, field)
+                what = "sends_exactly_its_argument_once"
+            else:
+                ok = "r matches Ok(v) ==> %s && (final(t).sent.last() matches KeyKeeperAction::%s { response } && v == sent_value(response))" % (GREW, variant)
+                what = "returns_the_actors_reply_to_its_one_message"
+            u.take_fn(kkw, P + meth, ghost=KK_T, pre_body="broadcast use group_fmt_chan_errors;", e9=chan_e9(kkw, P + meth, MSG, "kk"), contract="""
+        ensures
+            r is Err ==> final(t).gone,  // @%(p)s.wrapper.%(m)s.fails_only_if_actor_gone
+            %(ok)s,  // @%(p)s.wrapper.%(m)s.%(w)s
+            final(t).sent == old(t).sent || (%(g)s),  // @%(p)s.wrapper.%(m)s.at_most_one_message
+""" % dict(p=prop, m=meth, ok=ok, w=what, g=GREW))
+        # ---- C10: the public key accessors: ONE SetKey / ONE GetKey each, one field projected
+        u.take_fn(kkw, P + "update_key", ghost=KK_T, ghost_calls=[("set_key", "all", "Tracked(t)")], contract="""
+        ensures
+            r is Err ==> final(t).gone,
+            r is Ok ==> %s && (final(t).sent.last() matches KeyKeeperAction::SetKey { key: a, response: _ } && a == Some(key)),  // @C10+C09.wrapper.update_key.one_SetKey_with_this_key
+            final(t).sent == old(t).sent || (%s),
+""" % (GREW, GREW))
+        u.take_fn(kkw, P + "clear_key", ghost=KK_T, ghost_calls=[("set_key", "all", "Tracked(t)")], contract="""
+        ensures
+            r is Err ==> final(t).gone,
+            r is Ok ==> %s && (final(t).sent.last() matches KeyKeeperAction::SetKey { key: a, response: _ } && a is None),  // @C10+C09.wrapper.clear_key.one_SetKey_none
+            final(t).sent == old(t).sent || (%s),
+""" % (GREW, GREW))
+        for (meth, proj) in (("get_current_key_value", "Some(k.key)"), ("get_current_key_guid", "Some(k.guid)"), ("get_current_key_incarnation", "k.incarnationId")):
+            u.take_fn(kkw, P + meth, ghost=KK_T, ghost_calls=[("get_key", "all", "Tracked(t)")], contract="""
+        ensures
+            r is Err ==> final(t).gone,
+            r matches Ok(v) ==> %(g)s && (final(t).sent.last() matches KeyKeeperAction::GetKey { response }
+                && v == (match sent_value(response) { Some(k) => %(proj)s, None => None })),  // @C10.wrapper.%(m)s.one_GetKey_and_one_field_of_that_reply
+            final(t).sent == old(t).sent || (%(g)s),  // @C10.wrapper.%(m)s.at_most_one_message
+""" % dict(g=GREW, proj=proj, m=meth))
